@@ -92,6 +92,9 @@ def emit_oracle(ctx, C, seed, progs):
     dist = {}
     small = small_ir_scripts(rng)
     contexts = list(c06_pairs.CONTEXTS)
+    if not thorough:                               # quick tier: the kinds of block that carry node classes of their own + two drawn ones
+        fixed = ["setup", "fn", "try", "hoisted-loop"]
+        contexts = fixed + rng.sample([c for c in contexts if c not in fixed], 2)
     cat = catalog_scripts(rng, contexts)
     if thorough:                                   # a second drawing of the catalog: other run-time / literal choices, shuffled
         cat += catalog_scripts(rng, contexts)
@@ -282,7 +285,7 @@ def poison_families(rng, n):
         if rng.random() < 0.5:
             calls.reverse()
         tail = "while True:\n    sleep(5)\n"
-        fam = {"shape": shape, "P": []}
+        fam = {"shape": shape, "P": [], "own_names": bool(k % 3)}
         if shape in ("spec-conflict", "spec-conflict-float"):
             fam["V"] = f"def {f}(x):\n{good_body}" + "\n".join(calls) + "\n" + tail
             fam["P"].append(f"def {f}(x):\n{bad_body}" + "\n".join(calls) + "\n" + tail)
@@ -356,7 +359,7 @@ def rejected_oracle(ctx, C, seed):
             return [base + off + j for j in range(len(seq))]
         # one long session per family (the helper names of a family are its own, see poison_families): V first - its text before any
         # rejected script - then every twin before / between / after it; and each twin alone after a module reset
-        ref_v = add([v])[0]
+        ref_v = add([v], reset=not fam.get("own_names"))[0]       # (a family whose helper names are its own needs no fresh module state)
         fam["ref_v"] = ref_v
         fam["ref_p"] = []
         seen = [v]
@@ -408,15 +411,13 @@ def rejected_oracle(ctx, C, seed):
                                     "print(emit(parse(open(sys.argv[-1]).read())))' <earlier programs...> <program>   versus the same command with <program> alone"}, budget)
     # ---- ABORTED transpilations: V itself, cut short at a seeded selection of its function calls by an exception that is not a ValueError
     # (what Ctrl-C or a MemoryError does); V afterwards must come out as it does alone.  The aborted script shares every key with V.
-    vs = [fam["V"] for fam in fams]
+    vs = [fam["V"] for k_, fam in enumerate(fams) if thorough or k_ % 2 == 0]
     counts = c10_roles.run_ops(C, vs, [["ti", i, 0] for i in range(len(vs))], seed)
     ops2, back = [], []
     n_abort = 0
     for i, r0 in enumerate(counts):
         total = r0.get("calls", 0)
         if not r0["ok"] or total < 2:
-            continue
-        if not thorough and i % 2:
             continue
         parts = 8 if thorough else 4
         cuts = sorted({1 + (total * q) // parts for q in range(1, parts)} | {rng.randint(1, total) for _ in range(3 if thorough else 1)})
